@@ -20,6 +20,11 @@ def run(tier):
                                what="CArc/CArcSome diverge from Arc semantics")
     tb += tbo
     ts += tso
+    # ... and over a payload without drop glue (plain data): the last release still frees the allocation
+    tbo, tso = lib.replay_step(c, rt, ["arcpod"], jsonl, ["--slots", "3", "--allocs", "2", "--threads", "2"], parts=8, label="(payload without drop glue)",
+                               what="CArc/CArcSome diverge from Arc semantics")
+    tb += tbo
+    ts += tso
     # spec -> impl, long random behaviours
     n = 200 if quick else 4000
     jsonl2, nb2 = lib.gen_step(c, "Gen_CArc", "Gen_CArc_sim.cfg", "gen_carc_sim", simulate="num=%d" % n, workers=4, seed_=lib.seed(),
@@ -60,7 +65,7 @@ def run(tier):
     c.cov["concurrent_events_validated"] = conc_events
     markers(c)
     c.assumptions += ["scheduled replays: interleaving granularity = one public operation; free-running mode: 3 OS threads operate on their own handles of shared allocations at once, events are ordered by a global sequence number taken at completion (operations of different threads touch disjoint slots, so every merge that respects per-thread order is an admissible linearisation) and the counts are compared after the threads have joined",
-                      "payloads: an ordinary struct and one with #[repr(align(64))]", "strong count is read through a std Arc retained by the environment; allocations created by From<T> are observed through destructor counts only"]
+                      "payloads: an ordinary struct with a destructor, one with #[repr(align(64))], one without drop glue (allocations made from a value are skipped there: only destructor counts could observe them)", "strong count is read through a std Arc retained by the environment; allocations created by From<T> are observed through destructor counts only"]
     c.finish({"behaviours_replayed": tb + tb2, "replay_steps": ts + ts2, "trace_events_validated": nev,
               "exhaustive": True, "evaluations": tb + tb2, "distinct_nontrivial": nb + nb2,
               "rule": "all behaviours of Gen_CArc up to its depth (canonical destination slot) + TLC -simulate behaviours of depth 40; each replayed with operations executed on the thread the spec names"})
